@@ -67,6 +67,7 @@ type Frame struct {
 	beforeDefs []beforeDef
 	nextBefore int
 	srcTypes   map[string]types.Type
+	scratchStop *ssa.BasicBlock
 }
 
 type beforeDef struct {
@@ -635,6 +636,12 @@ func (v *Verifier) setPath(c Value, path []PE, nv Value) Value {
 		return &ArrV{Arr: v.F.Store(a.Arr, idx, t), Elem: a.Elem}
 	case *IteV:
 		return v.mergeV(a.C, v.setPath(a.A, path, nv), v.setPath(a.B, path, nv))
+	case *Term:
+		if a.S != SBool && len(v.abstract) > 0 {
+			// a raw limb of an abstract element is overwritten: the element becomes an arbitrary value
+			v.assume("writing a raw limb of an abstract field element makes its value arbitrary at the abstract layer")
+			return v.F.Fresh("rawlimb", a.S)
+		}
 	}
 	unsup("setPath into %T", c)
 	return nil
@@ -796,6 +803,17 @@ func (v *Verifier) merge2(a, b *State) *State {
 	n := &State{mem: map[*Object]Value{}, ghosts: map[string]*Term{}, srcVar: map[string]Value{}, srcAdr: map[string]bool{}}
 	n.pc = v.F.Or(a.pc, b.pc)
 	n.path = v.F.Or(pa, pb)
+	if len(a.cnt) > 0 || len(b.cnt) > 0 {
+		n.cnt = map[string]int{}
+		for k, x := range a.cnt {
+			n.cnt[k] = x
+		}
+		for k, x := range b.cnt {
+			if x > n.cnt[k] {
+				n.cnt[k] = x
+			}
+		}
+	}
 	for o, va := range a.mem {
 		if vb, ok := b.mem[o]; ok {
 			n.mem[o] = v.mergeV(c, va, vb)
@@ -920,7 +938,7 @@ func (fr *Frame) run(b, pred *ssa.BasicBlock, st *State, stop *ssa.BasicBlock) (
 		if st.pc.IsFalse() {
 			return nil
 		}
-		if b == stop {
+		if b == stop || (fr.scratchStop != nil && b == fr.scratchStop && pred != nil) {
 			return []arrival{{pred: pred, st: st}}
 		}
 		fr.visits[b]++
